@@ -1129,12 +1129,19 @@ class Client:
         response = self.send_request(request)
         if response is None:
             return None
-        response = services.InputOutputControlByIdentifier.interpret_response(
-            response,
-            control_param=control_param,
-            tolerate_zero_padding=self.config['tolerate_zero_padding'],
-            ioconfig=self.config['input_output']
-        )
+        try:
+            response = services.InputOutputControlByIdentifier.interpret_response(
+                response,
+                control_param=control_param,
+                tolerate_zero_padding=self.config['tolerate_zero_padding'],
+                ioconfig=self.config['input_output']
+            )
+        except ConfigError as e:
+            if e.key == did:
+                raise
+            else:
+                raise UnexpectedResponseException(
+                    response, "Server echoed data identifier 0x%04x that was not requested and has no definition in the input_output configuration." % (e.key))
 
         if response.service_data.did_echo != did:
             raise UnexpectedResponseException(
